@@ -87,7 +87,10 @@ def event_tla(ev):
         fl = a.get("flow") or []
         f += [("name", tla(ev["name"])), ("ids", _ids_set(ids)), ("flow", tla(set(str(x) for x in fl))),
               ("outs", tla(set(a.get("outputs") or []))), ("pres", tla(set(a.get("prerequisites") or []))),
-              ("stopcp", str(int(a["cycle_point"])) if str(a.get("cycle_point") or "").lstrip("-").isdigit() else str(NOPOINT))]
+              ("stopcp", str(int(a["cycle_point"])) if str(a.get("cycle_point") or "").lstrip("-").isdigit() else str(NOPOINT)),
+              ("stoptask", _id([a["task"].split("/")[1], int(a["task"].split("/")[0])])
+               if ev["name"] == "stop" and a.get("task") and a["task"].split("/")[0].lstrip("-").isdigit()
+               else '<<"none", %d>>' % NOPOINT)]
     elif e == "remove":
         f += [("t", task_tla(ev["t"])), ("reason", tla("completed" if ev["reason"] == "completed" else ev["reason"])), ("cx", cx)]
     elif e == "state":
